@@ -32,6 +32,7 @@ var (
 	fOffset   = flag.Int64("offset", 0, "worker: byte offset into the shard file")
 	fCount    = flag.Int("count", -1, "worker: number of inputs to run (-1 = to the end)")
 	fDeadline = flag.Duration("deadline", 5*time.Second, "worker: per-request deadline")
+	fStandby  = flag.Bool("standby", false, "worker: wait for the assignment (file, offset, count, deadline) on stdin after warming up")
 )
 
 type shardItem struct {
@@ -62,45 +63,180 @@ type workerRun struct {
 	Detail     string
 	Routes     []string
 	HarnessErr string
+	ExitErr    string
 }
 
 var panicLine = regexp.MustCompile(`(?m)^(panic: .*|fatal error: .*)$`)
 
-func runWorker(self, scratch, tag, file string, offset int64, count int, deadline, noProgress time.Duration, vlimitKB int) *workerRun {
-	wr := &workerRun{CulpritID: -1}
-	logPath := filepath.Join(scratch, "worker-"+tag+".log")
-	lf, _ := os.Create(logPath)
+// proc is one worker process.  Workers are started in standby mode (they assemble the router, warm up, report
+// ready and then wait for their assignment on stdin), so that a pool of ready spares hides the start-up latency
+// when a worker dies.
+type proc struct {
+	cmd     *exec.Cmd
+	stdin   *os.File
+	pr      *os.File
+	lines   chan string
+	logPath string
+	tag     string
+	routes  []string
+	err     string // start-up failure
+}
+
+type pool struct {
+	self, scratch string
+	vlimitKB      int
+	ready         chan *proc
+	stop          chan struct{}
+	seq           int64
+	mu            sync.Mutex
+	wg            sync.WaitGroup
+}
+
+func newPool(self, scratch string, vlimitKB, spares, starters int) *pool {
+	pl := &pool{self: self, scratch: scratch, vlimitKB: vlimitKB, ready: make(chan *proc, spares), stop: make(chan struct{})}
+	for i := 0; i < starters; i++ {
+		pl.wg.Add(1)
+		go func() {
+			defer pl.wg.Done()
+			for {
+				select {
+				case <-pl.stop:
+					return
+				default:
+				}
+				p := pl.spawn()
+				select {
+				case pl.ready <- p:
+				case <-pl.stop:
+					p.kill()
+					return
+				}
+			}
+		}()
+	}
+	return pl
+}
+
+func (pl *pool) close() {
+	close(pl.stop)
+	pl.wg.Wait()
+	for {
+		select {
+		case p := <-pl.ready:
+			p.kill()
+		default:
+			return
+		}
+	}
+}
+
+func (p *proc) kill() {
+	if p.cmd != nil && p.cmd.Process != nil {
+		p.cmd.Process.Kill()
+		p.cmd.Wait()
+	}
+	if p.stdin != nil {
+		p.stdin.Close()
+	}
+	if p.pr != nil {
+		p.pr.Close()
+	}
+}
+
+// spawn starts a standby worker and waits until it reported ready (or failed).
+func (pl *pool) spawn() *proc {
+	pl.mu.Lock()
+	pl.seq++
+	tag := fmt.Sprintf("%05d", pl.seq)
+	pl.mu.Unlock()
+	p := &proc{tag: tag, logPath: filepath.Join(pl.scratch, "worker-"+tag+".log")}
+	lf, err := os.Create(p.logPath)
+	if err != nil {
+		p.err = err.Error()
+		return p
+	}
 	defer lf.Close()
 	pr, pw, err := os.Pipe()
 	if err != nil {
-		wr.Kind, wr.HarnessErr = "harness", err.Error()
-		return wr
+		p.err = err.Error()
+		return p
 	}
-	// `ulimit -v` caps the address space of the worker; fd 3 is the journal
-	sh := fmt.Sprintf("ulimit -v %d; exec \"$0\" -worker -file \"$1\" -offset %d -count %d -deadline %s", vlimitKB, offset, count, deadline)
-	cmd := exec.Command("/bin/sh", "-c", sh, self, file)
-	cmd.Stdout, cmd.Stderr = lf, lf
+	sr, sw, err := os.Pipe()
+	if err != nil {
+		p.err = err.Error()
+		return p
+	}
+	// `ulimit -v` caps the address space of the worker; fd 3 is the journal, stdin carries the assignment
+	cmd := exec.Command("/bin/sh", "-c", fmt.Sprintf("ulimit -v %d; exec \"$0\" -worker -standby", pl.vlimitKB), pl.self)
+	cmd.Stdin, cmd.Stdout, cmd.Stderr = sr, lf, lf
 	cmd.ExtraFiles = []*os.File{pw}
 	cmd.Env = append(os.Environ(), "GOMAXPROCS=2", "GOTRACEBACK=all", "VERIF_C05_JOURNAL_FD=3")
 	if err := cmd.Start(); err != nil {
 		pw.Close()
 		pr.Close()
-		wr.Kind, wr.HarnessErr = "harness", err.Error()
-		return wr
+		sr.Close()
+		sw.Close()
+		p.err = err.Error()
+		return p
 	}
 	pw.Close()
-	lines := make(chan string, 256)
+	sr.Close()
+	p.cmd, p.stdin, p.pr = cmd, sw, pr
+	p.lines = make(chan string, 256)
 	go func() {
 		sc := bufio.NewScanner(pr)
 		sc.Buffer(make([]byte, 1<<20), 1<<26)
 		for sc.Scan() {
-			lines <- sc.Text()
+			p.lines <- sc.Text()
 		}
-		close(lines)
+		close(p.lines)
 	}()
+	select {
+	case l, ok := <-p.lines:
+		kind, rest, _ := strings.Cut(l, " ")
+		switch {
+		case !ok:
+			cmd.Wait()
+			lb, _ := os.ReadFile(p.logPath)
+			if len(lb) > 2000 {
+				lb = lb[len(lb)-2000:]
+			}
+			p.err = fmt.Sprintf("worker %s exited before it was ready\n%s", tag, lb)
+		case kind == "R":
+			var m struct {
+				Routes []string `json:"routes"`
+			}
+			json.Unmarshal([]byte(rest), &m)
+			p.routes = m.Routes
+		default:
+			p.err = "worker " + tag + " start-up: " + l
+			p.kill()
+		}
+	case <-time.After(120 * time.Second):
+		p.err = "worker " + tag + " not ready after 120 s"
+		p.kill()
+	}
+	return p
+}
+
+func runWorker(pl *pool, file string, offset int64, count int, deadline, noProgress time.Duration) *workerRun {
+	wr := &workerRun{CulpritID: -1}
+	p := <-pl.ready
+	if p.err != "" {
+		wr.Kind, wr.HarnessErr = "harness", p.err
+		return wr
+	}
+	wr.Routes = p.routes
+	tag, logPath, cmd, pr, lines := p.tag, p.logPath, p.cmd, p.pr, p.lines
+	if _, err := fmt.Fprintf(p.stdin, "%s\t%d\t%d\t%s\n", file, offset, count, deadline); err != nil {
+		wr.Kind, wr.HarnessErr = "harness", "cannot hand the assignment to worker "+tag+": "+err.Error()
+		p.kill()
+		return wr
+	}
+	p.stdin.Close()
 	pending := -1
-	ready := false
-	timer := time.NewTimer(noProgress + 30*time.Second) // generous until the worker reported ready
+	ready := true
+	timer := time.NewTimer(noProgress)
 	defer timer.Stop()
 	killed := false
 loop:
@@ -119,13 +255,6 @@ loop:
 			timer.Reset(noProgress)
 			kind, rest, _ := strings.Cut(l, " ")
 			switch kind {
-			case "R":
-				ready = true
-				var m struct {
-					Routes []string `json:"routes"`
-				}
-				json.Unmarshal([]byte(rest), &m)
-				wr.Routes = m.Routes
 			case "B":
 				fmt.Sscanf(rest, "%d", &pending)
 			case "E":
@@ -159,8 +288,9 @@ loop:
 			break loop
 		}
 	}
-	err = cmd.Wait()
+	err := cmd.Wait()
 	pr.Close()
+	wr.ExitErr = fmt.Sprint(err)
 	if wr.Kind == "" && pending >= 0 && !killed {
 		// died in the middle of an input
 		wr.CulpritID, wr.Kind = pending, "exit"
@@ -218,7 +348,7 @@ func token(s string) string {
 func main() {
 	flag.Parse()
 	if *fWorker {
-		workerMain(*fFile, *fOffset, *fCount, *fDeadline)
+		workerMain(*fFile, *fOffset, *fCount, *fDeadline, *fStandby)
 		return
 	}
 	r := ev.Start("C05", "model_checking", 80*time.Second, 17*time.Minute)
@@ -230,9 +360,11 @@ func main() {
 	if err != nil {
 		ev.Fatal("%v", err)
 	}
-	deadline, noProgress := 3*time.Second, 20*time.Second
+	// firstPass: deadline inside the long-lived shard workers; a request that misses it is only a *suspect* and is
+	// then re-run alone with the full deadline
+	firstPass, deadline, noProgress := 300*time.Millisecond, 3*time.Second, 20*time.Second
 	if r.Thorough() {
-		deadline = 10 * time.Second
+		firstPass, deadline = time.Second, 10*time.Second
 	}
 	if r.Replay != "" {
 		deadline = 20 * time.Second
@@ -245,7 +377,7 @@ func main() {
 	r.Assumptions = []string{
 		"the ingest side is assembled with the lines of writer.Init (real plugin.CreateStaticServiceRegistry, real RegisterRoutes, real controllers, parsers and insert services); only plugin.Initialize's real ClickHouse adapters are replaced by an always-ok fake ch_wrapper.IChClient that checks every INSERT block",
 		"configuration: cloki-config defaults, flush interval 2 ms (BULK_MAX_AGE_MS), retry delay 0 s; no main()-level middleware (authentication / response compression belong to C20)",
-		fmt.Sprintf("a request that produced no response within %s (quick 3 s, thorough 10 s, replay 20 s; normal latency is micro- to milliseconds) or a worker that died / made no journal progress for %s is attributed to the journalled input and counts only if it fails again in each of 3 solo re-runs in fresh workers — the only wall-clock criterion of the check (DESIGN §7)", deadline, noProgress),
+		fmt.Sprintf("a worker that died, made no journal progress for %s, or whose current request produced no response within the first-pass deadline %s makes the journalled input a suspect; the suspect is re-run alone 3 times in fresh workers with the full deadline %s (quick 3 s, thorough 10 s, replay 20 s; normal latency is micro- to milliseconds) and counts only if it dies / stays unanswered every time — the only wall-clock criterion of the check (DESIGN §7).  Economy: after 5 confirmed culprits of one class (kind, code site, decoder family) further first-pass suspects of the same class are recorded and counted but not re-run", noProgress, firstPass, deadline),
 		"2xx is demanded only for bodies the boring reference rule calls well-formed (valid JSON / valid JSON lines / decodable gzip or snappy framing / parsable protobuf or pprof); influx line protocol, elastic documents and odd content types have no independent syntax rule and are only required to be answered",
 		"goroutine census = goroutines with a frame inside the repository; those created by a request must be gone after at most 50 scheduler yields + 350 sleeps of 2 ms",
 		"a follow-up valid push by another client is sent after every input that reached an insert service, was acknowledged, or failed with 5xx, and after every 50th input otherwise",
@@ -307,7 +439,10 @@ func main() {
 	var harnessErr string
 	var routes []string
 	flaky := 0
+	confirmed := map[string]int{}   // class -> culprits confirmed by 3 solo re-runs
+	unconfirmed := map[string]int{} // class -> further first-pass suspects of an already confirmed class (not re-run)
 	soloSem := make(chan struct{}, nw)
+	pl := newPool(self, scratch, vlimitKB, nw, nw/2+1)
 
 	solo := func(in *Input, tag string) *workerRun {
 		soloSem <- struct{}{}
@@ -316,7 +451,7 @@ func main() {
 		b, _ := json.Marshal(in)
 		os.WriteFile(f, append(b, '\n'), 0o644)
 		defer os.Remove(f)
-		return runWorker(self, scratch, "solo-"+tag, f, 0, 1, deadline, noProgress, vlimitKB)
+		return runWorker(pl, f, 0, 1, deadline, noProgress)
 	}
 
 	var wg sync.WaitGroup
@@ -331,7 +466,7 @@ func main() {
 					return
 				}
 				gen++
-				wr := runWorker(self, scratch, fmt.Sprintf("%02d-%d", k, gen), files[k], shards[k][pos].Offset, -1, deadline, noProgress, vlimitKB)
+				wr := runWorker(pl, files[k], shards[k][pos].Offset, -1, firstPass, noProgress)
 				mu.Lock()
 				if routes == nil && wr.Routes != nil {
 					routes = wr.Routes
@@ -350,7 +485,7 @@ func main() {
 				if wr.CulpritID < 0 {
 					if pos < len(shards[k]) && !r.Expired() {
 						mu.Lock()
-						harnessErr = fmt.Sprintf("worker of shard %d ended early at position %d/%d without a culprit", k, pos, len(shards[k]))
+						harnessErr = fmt.Sprintf("worker of shard %d (generation %d) ended early at position %d/%d without a culprit: %d results, exit=%v", k, gen, pos, len(shards[k]), len(wr.Results), wr.ExitErr)
 						mu.Unlock()
 					}
 					return
@@ -363,41 +498,57 @@ func main() {
 					return
 				}
 				in := byID[wr.CulpritID]
-				// re-run alone 3 times in fresh workers: counts only if it fails every time
-				fails := 0
-				var last *workerRun
-				var swg sync.WaitGroup
-				var smu sync.Mutex
-				for i := 0; i < 3; i++ {
-					swg.Add(1)
-					go func(i int) {
-						defer swg.Done()
-						s := solo(in, fmt.Sprintf("%d-%d", in.ID, i))
-						smu.Lock()
-						defer smu.Unlock()
-						if s.CulpritID == in.ID && (s.Kind == "exit" || s.Kind == "stall") {
-							fails++
-							last = s
-						} else if s.Kind == "harness" {
-							mu.Lock()
-							harnessErr = s.HarnessErr
-							mu.Unlock()
-						}
-					}(i)
-				}
-				swg.Wait()
+				classKey := wr.Kind + ":" + wr.Site + ":" + in.Family
 				mu.Lock()
-				if fails == 3 {
-					culprits = append(culprits, culprit{In: in, Kind: last.Kind, Site: last.Site, Detail: last.Detail})
-				} else {
-					flaky++
+				skip := confirmed[classKey] >= 5
+				if skip {
+					unconfirmed[classKey]++
 				}
 				mu.Unlock()
+				if !skip {
+					// re-run alone 3 times in fresh workers with the full deadline: counts only if it fails every time
+					fails := 0
+					var last, good *workerRun
+					var swg sync.WaitGroup
+					var smu sync.Mutex
+					for i := 0; i < 3; i++ {
+						swg.Add(1)
+						go func(i int) {
+							defer swg.Done()
+							s := solo(in, fmt.Sprintf("%d-%d", in.ID, i))
+							smu.Lock()
+							defer smu.Unlock()
+							if s.CulpritID == in.ID && (s.Kind == "exit" || s.Kind == "stall") {
+								fails++
+								last = s
+							} else if s.Kind == "harness" {
+								mu.Lock()
+								harnessErr = s.HarnessErr
+								mu.Unlock()
+							} else if len(s.Results) == 1 {
+								good = s
+							}
+						}(i)
+					}
+					swg.Wait()
+					mu.Lock()
+					if fails == 3 {
+						culprits = append(culprits, culprit{In: in, Kind: last.Kind, Site: last.Site, Detail: last.Detail})
+						confirmed[last.Kind+":"+last.Site+":"+in.Family]++
+					} else {
+						flaky++
+						if good != nil {
+							results[in.ID] = good.Results[0] // it does answer when run alone: judge that answer
+						}
+					}
+					mu.Unlock()
+				}
 				pos++ // continue after the culprit
 			}
 		}(k)
 	}
 	wg.Wait()
+	pl.close()
 	if harnessErr != "" {
 		ev.Fatal("%s", harnessErr)
 	}
@@ -426,12 +577,19 @@ func main() {
 	// ---- judge
 	judgeAll(r, inputs, results, culprits)
 	r.Extra["inputs_generated"] = len(inputs)
-	r.Extra["inputs_run"] = len(results) + len(culprits) + flaky
+	nUnconf := 0
+	for _, v := range unconfirmed {
+		nUnconf += v
+	}
+	r.Extra["culprits_confirmed_by_class"] = confirmed
+	r.Extra["first_pass_suspects_of_confirmed_classes_not_rerun"] = unconfirmed
+	r.Extra["inputs_run"] = len(results) + len(culprits) + nUnconf
 	r.Extra["workers"] = nw
 	r.Extra["culprits_not_reproduced_in_3_solo_reruns"] = flaky
 	r.Extra["per_request_deadline"] = deadline.String()
-	if len(results)+len(culprits)+flaky < len(inputs) {
-		r.Cap(fmt.Sprintf("only %d of %d inputs were run before the internal deadline", len(results)+len(culprits)+flaky, len(inputs)))
+	r.Extra["first_pass_deadline"] = firstPass.String()
+	if len(results)+len(culprits)+nUnconf < len(inputs) {
+		r.Cap(fmt.Sprintf("only %d of %d inputs were run before the internal deadline", len(results)+len(culprits)+nUnconf, len(inputs)))
 	}
 	r.Finish()
 }
@@ -480,6 +638,38 @@ func shape(in *Input) string {
 	return in.Family + ":" + strings.ReplaceAll(d, " ", "_")
 }
 
+var lineFamilies = map[string]bool{"dd_cf": true, "elastic_bulk": true, "zipkin_ndjson": true}
+
+// acceptedClass names a "2xx for a malformed body" case by explanation.  Two documented deviant rules are recognised
+// (each is one root cause seen on the unchanged tree); anything else keeps the fine-grained shape in its class.
+func acceptedClass(in *Input, why string) string {
+	switch {
+	case lineFamilies[in.Family] && (why == "gzip_stream_broken" || why == "snappy_stream_broken"):
+		// the decoder reads lines with bufio.Scanner and never looks at scanner.Err(): a read error ends the body early
+		return "accepted_malformed:line_scanner_error_ignored:" + in.Family + ":" + why
+	case lineFamilies[in.Family] && hasLongLine(in.Body):
+		return "accepted_malformed:line_scanner_error_ignored:" + in.Family + ":line_longer_than_64KiB"
+	case why == "trailing_data_after_json_document" || why == "trailing_data_after_json_value_in_line":
+		// the streaming JSON decoder stops after the first complete value and ignores what follows
+		return "accepted_malformed:" + why + ":" + in.Family
+	}
+	return "accepted_malformed:" + why + ":" + shape(in)
+}
+
+func hasLongLine(b []byte) bool {
+	n := 0
+	for _, c := range b {
+		if c == '\n' {
+			n = 0
+			continue
+		}
+		if n++; n > 64*1024 {
+			return true
+		}
+	}
+	return false
+}
+
 func judgeAll(r *ev.Run, inputs []Input, results map[int]Result, culprits []culprit) {
 	for i := range inputs {
 		in := &inputs[i]
@@ -508,7 +698,7 @@ func judgeAll(r *ev.Run, inputs []Input, results map[int]Result, culprits []culp
 		switch {
 		case res.Status/100 == 2:
 			if !wf {
-				violate(r, "accepted_malformed:"+why+":"+shape(in), describe(in)+fmt.Sprintf(": answered %d although the body is malformed (%s)", res.Status, why), in, res)
+				violate(r, acceptedClass(in, why), describe(in)+fmt.Sprintf(": answered %d although the body is malformed (%s)", res.Status, why), in, res)
 			} else if okStatus != 0 && res.Status != okStatus {
 				violate(r, fmt.Sprintf("unexpected_success_status_%d:%s", res.Status, in.Family), describe(in)+fmt.Sprintf(": answered %d, the route acknowledges with %d", res.Status, okStatus), in, res)
 			}
@@ -576,7 +766,9 @@ func replay(r *ev.Run, self, scratch string, deadline, noProgress time.Duration,
 	f := filepath.Join(scratch, "replay.jsonl")
 	lb, _ := json.Marshal(&in)
 	os.WriteFile(f, append(lb, '\n'), 0o644)
-	wr := runWorker(self, scratch, "replay", f, 0, 1, deadline, noProgress, vlimitKB)
+	pl := newPool(self, scratch, vlimitKB, 1, 1)
+	defer pl.close()
+	wr := runWorker(pl, f, 0, 1, deadline, noProgress)
 	if wr.Kind == "harness" {
 		ev.Fatal("%s", wr.HarnessErr)
 	}
